@@ -39,7 +39,9 @@ _p("C16", ["instances"], ["pipeline"], "Counter invariant of the instance cap (e
 _p("C03", ["shexing"], [], "wip")
 _p("C04", ["shexing", "c20_config"], [], "wip")
 _p("C01", ["instances", "profiling", "shexing"], ["pipeline"], "wip")
-for pid in ("C02", "C09", "C12", "C13", "C14"):
+_p("C12", ["filtering", "c20_config"], ["pipeline"], "wip")
+_p("C02", ["filtering", "shexing"], ["pipeline"], "wip")
+for pid in ("C09", "C13", "C14"):
     _p(pid, [], ["pipeline"], MON)
 
 HOOK_COMMITS = []
